@@ -1,46 +1,59 @@
 mod api;
 mod bencode;
 mod krpc;
+mod props;
 mod rng;
+mod runner;
 mod sim;
 
-use sim::*;
-use std::net::{Ipv4Addr, SocketAddrV4};
+use props::{RunCtx, Tier};
 
 fn main() {
-    let t0 = std::time::Instant::now();
-    let sim = Sim::new(1, NetCfg::default());
-    let n = 10;
-    let boot = SocketAddrV4::new(Ipv4Addr::new(10, 0, 0, 1), 6881);
-    let mut hosts = vec![];
-    for i in 0..n {
-        let ip = Ipv4Addr::new(10, 0, 0, 1 + i as u8);
-        let mut spec = NodeSpec::new(ip, 6881).server();
-        if i > 0 {
-            spec = spec.bootstrap(&[boot]);
+    let args: Vec<String> = std::env::args().collect();
+    let code = match args.get(1).map(|s| s.as_str()) {
+        Some("check") => {
+            let prop = args.get(2).expect("property id");
+            let tier = args
+                .iter()
+                .position(|a| a == "--tier")
+                .and_then(|i| args.get(i + 1))
+                .map(|s| Tier::parse(s))
+                .or_else(|| std::env::var("VERIF_TIER").ok().map(|s| Tier::parse(&s)))
+                .unwrap_or(Tier::Quick);
+            runner::check(prop, tier)
         }
-        hosts.push(sim.add_node(spec));
-        sim.run_for(2 * SEC);
-    }
-    for h in &hosts {
-        println!("host {h} alive={} died={:?} table={:?}", sim.alive(*h), sim.died(*h), sim.snapshot(*h).map(|s| s.routing_table.size));
-    }
-    let put = sim.put_immutable(hosts[3], b"hello world".to_vec());
-    let ok = sim.run_ops(&[put], sim.now() + 60 * SEC);
-    println!("put done={ok} at {}ms", sim.now() / MS);
-    sim.with_op(put, |o| match &o.outcome {
-        Some(Outcome::PutImmutable(r)) => println!("put result {:?}", r),
-        _ => println!("?? {:?}", o.panicked),
-    });
-    let target = krpc::immutable_target(b"hello world");
-    let get = sim.get_immutable(hosts[7], target);
-    let ok = sim.run_ops(&[get], sim.now() + 60 * SEC);
-    println!("get done={ok} at {}ms", sim.now() / MS);
-    sim.with_op(get, |o| match &o.outcome {
-        Some(Outcome::Immutable(r)) => println!("get result {:?}", r.as_ref().map(|b| String::from_utf8_lossy(b).to_string())),
-        _ => println!("?? {:?}", o.panicked),
-    });
-    sim.run_for(3600 * SEC);
-    println!("stats {:?} trace {} wall {:?}", sim.stats(), sim.trace_len(), t0.elapsed());
-    sim.teardown();
+        Some("worker") => {
+            let prop = &args[2];
+            let tier = Tier::parse(&args[3]);
+            let base: u64 = args[4].parse().unwrap();
+            let start: u64 = args[5].parse().unwrap();
+            let count: u64 = args[6].parse().unwrap();
+            let threads: usize = args[7].parse().unwrap();
+            runner::worker(prop, tier, base, start, count, threads);
+            0
+        }
+        Some("replay") => runner::replay(args.get(2).expect("replay file")),
+        Some("one") => {
+            // debug: run a single scenario by run seed
+            let prop = &args[2];
+            let seed: u64 = args[3].parse().unwrap();
+            let tier = Tier::parse(args.get(4).map(|s| s.as_str()).unwrap_or("quick"));
+            let mut ctx = RunCtx::new(seed, tier);
+            ctx.verbose = true;
+            let r = runner::run_one(prop, &ctx);
+            println!("{:#?}", r);
+            if r.violation.is_some() { 1 } else { 0 }
+        }
+        Some("list") => {
+            for p in props::all() {
+                println!("{}", p.id);
+            }
+            0
+        }
+        _ => {
+            eprintln!("usage: mlsim check <Cxx> [--tier quick|thorough] | replay <file> | one <Cxx> <seed> [tier] | list");
+            2
+        }
+    };
+    std::process::exit(code);
 }
